@@ -73,6 +73,11 @@ func Shard() (int, int) {
 // enumerations run only there, so that a sharded run counts every enumerated
 // cell once.
 func FirstShard() bool {
+	if os.Getenv("VERIF_VARIANT") != "" {
+		// an environment variant (another TZ, ...) runs the enumerations
+		// again under that environment
+		return true
+	}
 	i, _ := Shard()
 	return i == 0
 }
@@ -271,6 +276,9 @@ type Replay struct {
 	Property string          `json:"property"`
 	Sub      string          `json:"sub"`
 	Case     json.RawMessage `json:"case"`
+	// Env: process environment the case failed under when that was not the
+	// default one ("TZ=America/St_Johns"); the driver sets it for a replay
+	Env string `json:"env,omitempty"`
 }
 
 // SaveReplay writes a replay file and returns its path.
@@ -279,7 +287,7 @@ func (r *Recorder) SaveReplay(sub string, c any) string {
 	if err != nil {
 		raw, _ = json.Marshal(fmt.Sprint(c))
 	}
-	rp := Replay{Property: r.Property, Sub: sub, Case: raw}
+	rp := Replay{Property: r.Property, Sub: sub, Case: raw, Env: os.Getenv("VERIF_VARIANT")}
 	data, _ := json.MarshalIndent(rp, "", " ")
 	sum := sha256.Sum256(data)
 	dir := filepath.Join(VerifDir(), "replays", r.Property)
